@@ -343,8 +343,9 @@ class GaussianMerge(Compiler):
 
     def remove_non_convex_operations(self, op, merged_gaussian_ops):
         """
-        Helper function that removes operations from merged_gaussian_ops if they depend, through an operation
-        that is not merged, on an operation that is: merging them would move them in front of that operation.
+        Helper function that removes operations from merged_gaussian_ops until no operation outside the merged
+        block lies between two operations of the block: such an operation has to run after one part of the block
+        and before another, so the block cannot be replaced by a single operation.
         E.X  MZ | q[0],q[1] -> D | q[0] -> BS | q[0],q[2] -> BS | q[0],q[1]: the last BS is a direct successor
         of the MZ (via q[1]) but cannot be merged with it unless BS | q[0],q[2] is merged as well.
         """
@@ -352,13 +353,15 @@ class GaussianMerge(Compiler):
         while removed:
             removed = False
             block = [op] + merged_gaussian_ops
-            downstream = set().union(*(nx.descendants(self.DAG, gate) for gate in block))
-            for gaussian_op in merged_gaussian_ops:
-                if any(
-                    pre not in block and pre in downstream
-                    for pre in self.DAG.predecessors(gaussian_op)
-                ):
-                    merged_gaussian_ops.remove(gaussian_op)
+            for gate in self.DAG.nodes:
+                if gate in block:
+                    continue
+                before = [g for g in block if g in nx.ancestors(self.DAG, gate)]
+                after = [g for g in block if g in nx.descendants(self.DAG, gate)]
+                if before and after:
+                    # keep the side of the block that contains op
+                    for g in before if op in after else after:
+                        merged_gaussian_ops.remove(g)
                     removed = True
                     break
         return merged_gaussian_ops
